@@ -17,6 +17,7 @@ import (
 
 	"github.com/invopop/gobl"
 	"github.com/invopop/gobl/bill"
+	"github.com/invopop/gobl/cbc"
 	"github.com/invopop/gobl/head"
 	"github.com/invopop/gobl/cal"
 	"github.com/invopop/gobl/internal/cli"
@@ -26,7 +27,7 @@ import (
 // C15, checks 2–4: op-level interleaving of library callers, the read-only
 // fingerprint of shared definitions, and the race-detector monitor.
 
-var wlOps = []string{"build", "validate", "sign", "verify", "correct", "correct-shared", "replicate", "corrschema", "cli-build", "digest"}
+var wlOps = []string{"build", "validate", "sign", "verify", "correct", "correct-shared", "validate-stamped", "replicate", "corrschema", "cli-build", "digest"}
 
 var (
 	addonMu   sync.Mutex
@@ -141,6 +142,20 @@ func runItem(c *Ctx, doc, addon, op string) string {
 			} else {
 				out = "corrected:" + H([]byte(normaliseResult(Marshal(r))))
 			}
+		case "validate-stamped":
+			// a signed envelope that received stamps afterwards, in an order that differs between documents
+			if err := env.Sign(PrivKey(1)); err != nil {
+				out = "sign-error:" + errStrHash(err)
+				break
+			}
+			provs := []string{"sim-prv-a", "sim-prv-b", "sim-prv-c"}
+			if len(doc)%2 == 1 {
+				provs = []string{"sim-prv-c", "sim-prv-a", "sim-prv-b"}
+			}
+			for _, p := range provs {
+				env.Head.AddStamp(&head.Stamp{Provider: cbc.Key(p), Value: "v-" + p})
+			}
+			out = "validate-stamped:" + errStrHash(env.Validate())
 		case "correct-shared":
 			// callers that keep one option list and use it for every document: the list has room
 			// to spare, and each envelope carries its own stamp
